@@ -47,6 +47,10 @@ def nm_rate(t, amp):
     return 0.5 - amp * np.sin(2.5 * t)
 
 
+def wiener_coupling(t, W):
+    return 1.0 + 0.8 * np.tanh(3 * W(t)[0])
+
+
 def h_mod(t, w):
     return 1.0 + (w - 1.0) * np.sin(t)
 
@@ -75,6 +79,15 @@ def make_solver(name, **opt):
         return qutip.NonMarkovianMCSolver(H, [(qutip.sigmam(), qutip.coefficient(nm_rate, args={"amp": ARGS0["amp"]}))], options=o), psi0
     o["dt"] = 0.02
     o["store_measurement"] = True
+    if name == "smefb":
+        # the strength of the monitored channel follows the Wiener process of the trajectory itself
+        scf = [qutip.QobjEvo([c[0], wiener_coupling], args={"W": qutip.SMESolver.WienerFeedback()})]
+        return qutip.SMESolver(H, sc_ops=scf, heterodyne=False, c_ops=c[1:], options=o), qutip.ket2dm(psi0)
+    if name == "smefbH":
+        # the feedback sits in the Hamiltonian
+        Hfb = qutip.QobjEvo([0.6 * qutip.sigmax(), [0.3 * qutip.sigmaz(), h_mod], [0.2 * qutip.sigmay(), wiener_coupling]],
+                            args={"w": ARGS0["w"], "W": qutip.SMESolver.WienerFeedback()})
+        return qutip.SMESolver(Hfb, sc_ops=c[:1], heterodyne=False, c_ops=c[1:], options=o), qutip.ket2dm(psi0)
     if name == "sse":
         return qutip.SSESolver(H, sc_ops=c[:1], heterodyne=False, options=o), psi0
     return qutip.SMESolver(H, sc_ops=c[:1], heterodyne=False, c_ops=c[1:], options=o), qutip.ket2dm(psi0)
@@ -117,7 +130,7 @@ def relational(rep, tier, rng):
     from numpy.random import SeedSequence
     viol = []
     eops = [qutip.sigmaz(), qutip.sigmax()]
-    names = ["mc", "nm_mc", "sse", "sme", "mc:vern7", "nm_mc:vern9"]
+    names = ["mc", "nm_mc", "sse", "sme", "mc:vern7", "nm_mc:vern9", "smefb:rouchon", "smefb:platen", "smefbH:platen"]
 
     def make_solver2(nm, **kw):
         # "solver:method" runs the solver with that integration method (explicit Runge-Kutta integrators keep step-size state)
@@ -163,7 +176,7 @@ def relational(rep, tier, rng):
             sol.start(st, float(TL[0]), seed=5)
             sol.step(float(TL[1]))
             sol.run(st, TL, ntraj=2, e_ops=eops, seeds=79, args=other)
-            if name in ("sse", "sme"):
+            if name.split(":")[0] in ("sse", "sme", "smefb", "smefbH"):
                 r0 = sol.run(st, TL, ntraj=1, e_ops=eops, seeds=81, args=back)
                 try:
                     sol.run_from_experiment(st, TL, np.array(r0.measurement[0]), e_ops=eops, measurement=True)
@@ -207,6 +220,29 @@ def relational(rep, tier, rng):
             if np.abs(np.asarray(r_avg.average_expect[k]) - np.asarray(r_keep.average_expect[k])).max() > 1e-10:
                 viol.append((f"keep-runs:{name}", f"{name}: ensemble averages differ with / without keep_runs_results"))
                 break
+        # (5b) final state only (states not stored): with and without kept trajectories, and again from the reported seeds
+        try:
+            fo = {"store_states": False, "store_final_state": True}
+            sk, st = make_solver2(name, keep_runs_results=True, **fo)
+            rk = sk.run(st, TL, ntraj=5, e_ops=eops, seeds=list(seeds))
+            sn, st = make_solver2(name, keep_runs_results=False, **fo)
+            rn = sn.run(st, TL, ntraj=5, e_ops=eops, seeds=list(seeds))
+            sr, st = make_solver2(name, keep_runs_results=True, **fo)
+            rr = sr.run(st, TL, ntraj=5, e_ops=eops, seeds=list(rk.seeds))
+            sfull, st = make_solver2(name, keep_runs_results=True, store_states=True)
+            rfull = sfull.run(st, TL, ntraj=5, e_ops=eops, seeds=list(seeds))
+            fk, fn, fr = rk.average_final_state.full(), rn.average_final_state.full(), rr.average_final_state.full()
+            fl = rfull.average_states[-1].full()
+            rep.evaluations += 1
+            rep.count("relational-final-state")
+            for tag, other in (("without kept trajectories", fn), ("re-run from the reported seeds", fr), ("the last averaged state of a run that stores states", fl)):
+                if np.abs(fk - other).max() > 1e-9:
+                    viol.append((f"final-state:{name}", f"{name}: the averaged final state with kept trajectories differs from {tag} by {np.abs(fk - other).max():.2e}"))
+                    break
+        except core.CaseTimeout:
+            raise
+        except Exception as e:      # noqa
+            viol.append((f"final-state-raises:{name}", f"{name}: {type(e).__name__}: {e}"[:200]))
         # (6) worker processes, completion order forced out of submission order
         for workers in ((2,) if tier == "quick" else (2, 3)):
             lock = tempfile.mktemp(prefix="qv_c13_")
